@@ -279,27 +279,31 @@ class SafeConstructor(BaseConstructor):
 
     def construct_yaml_float(self, node):
         value = self.construct_scalar(node)
-        value = value.replace('_', '').lower()
-        sign = +1
-        if value[0] == '-':
-            sign = -1
-        if value[0] in '+-':
-            value = value[1:]
-        if value == '.inf':
-            return sign*self.inf_value
-        elif value == '.nan':
-            return self.nan_value
-        elif ':' in value:
-            digits = [float(part) for part in value.split(':')]
-            digits.reverse()
-            base = 1
-            value = 0.0
-            for digit in digits:
-                value += digit*base
-                base *= 60
-            return sign*value
-        else:
-            return sign*float(value)
+        try:
+            value = value.replace('_', '').lower()
+            sign = +1
+            if value[0] == '-':
+                sign = -1
+            if value[0] in '+-':
+                value = value[1:]
+            if value == '.inf':
+                return sign*self.inf_value
+            elif value == '.nan':
+                return self.nan_value
+            elif ':' in value:
+                digits = [float(part) for part in value.split(':')]
+                digits.reverse()
+                base = 1
+                value = 0.0
+                for digit in digits:
+                    value += digit*base
+                    base *= 60
+                return sign*value
+            else:
+                return sign*float(value)
+        except (ValueError, IndexError):
+            raise ConstructorError(None, None,
+                    "expected a float, but found %r" % node.value, node.start_mark)
 
     def construct_yaml_binary(self, node):
         try:
